@@ -213,7 +213,7 @@ type profile struct {
 
 var allActs = []string{"equivocate", "badparent", "staleqc", "inflate", "dupsigner", "relabel", "subquorum",
 	"wrongblock", "genesisview", "futuretimeout", "badtimeoutsig", "dupvote", "multivote", "zerovote", "unknownvote",
-	"strayvote", "replay", "liefetch", "silent", "staleTC", "swapids", "nosig", "sameview", "aggreplay", "forgevote", "forgetc", "forgecontrib", "aggtwin", "aggattest", "aggforge", "roguekey", "payloadeq", "qceq", "aggswap", "aggstale", "spoofproposer", "dupbatch", "zeroview", "anoncontrib", "lockless", "noqctimeout", "genesissig", "stalechain", "stalechain", "stalechain"}
+	"strayvote", "replay", "liefetch", "silent", "staleTC", "swapids", "nosig", "sameview", "aggreplay", "forgevote", "forgetc", "forgecontrib", "aggtwin", "aggattest", "aggforge", "roguekey", "payloadeq", "qceq", "aggswap", "aggstale", "spoofproposer", "dupbatch", "zeroview", "anoncontrib", "lockless", "noqctimeout", "genesissig", "stalechain", "stalechain", "stalechain", "fhshide"}
 
 func profileFor(prop string) profile {
 	pr := profile{byz: 0.6, acts: allActs, faults: 6, leaders: []string{"round-robin", "round-robin", "round-robin", "fixed", "carousel", "reputation", "scripted"}}
@@ -274,6 +274,9 @@ func GenPlan(prop string, seed uint64) *Plan {
 	p := &Plan{Version: 1, Property: prop, Seed: seed, Inner: g.u64(), World: "consensus"}
 	if prop == "C01" && g.p(0.04) {
 		return genLocklessAttack(g, p)
+	}
+	if prop == "C01" && g.p(0.04) {
+		return genFHSHideAttack(g, p)
 	}
 	if (prop == "C01" && g.p(0.65)) || (prop == "C03" && g.p(0.35)) {
 		return genTwinsScenario(g, p)
@@ -656,6 +659,41 @@ func genLocklessAttack(g *gen, p *Plan) *Plan {
 	return p
 }
 
+// genFHSHideAttack: see fhsHide in adversary.go.
+func genFHSHideAttack(g *gen, p *Plan) *Plan {
+	p.N = 4
+	p.Ruleset = "fasthotstuff"
+	p.Crypto = pick(g, "eddsa", "eddsa", "ecdsa")
+	p.Cache = pick(g, 0, 8)
+	p.SyncVerify = true
+	p.Wire = g.p(0.3)
+	p.ViewDur = ViewDur{Kind: "fixed", Ms: pick(g, 20, 30, 50)}
+	p.Batch = 1
+	p.Filler = true
+	p.Queue = 1 << 16
+	p.Links = LinkCfg{BaseUs: 200, JitterUs: pick(g, 0, 100)}
+	z := g.rng(1, 4)
+	p.Byz = []ByzNd{{ID: z, Kind: "script", Acts: []string{"fhshide", "silent"}, Rate: 1}}
+	var rest []int
+	for id := 1; id <= 4; id++ {
+		if id != z {
+			rest = append(rest, id)
+		}
+	}
+	for i := len(rest) - 1; i > 0; i-- {
+		j := g.intn(i + 1)
+		rest[i], rest[j] = rest[j], rest[i]
+	}
+	p.Knobs = map[string]int{"fhA": rest[0], "fhB": rest[1], "fhC": rest[2]}
+	p.Leader = "scripted"
+	p.PrefixScript = []int{z, z, z, rest[0]}
+	p.Script = []int{z}
+	p.UntilMs = 12 * p.ViewDur.Ms
+	p.MaxViews = 12
+	p.MaxSteps = 40000
+	return p
+}
+
 // genTwinsScenario shapes a run after the Twins methodology (Bano et al.): a small cluster, one replica duplicated
 // (both copies run the honest code with the same identity and key), a leader named for every view — often the
 // duplicated replica — and a partition of all copies per view. Unlike the repository's lock-step Twins executor,
@@ -663,7 +701,7 @@ func genLocklessAttack(g *gen, p *Plan) *Plan {
 // entered when the protocol enters them. Short runs, so many of them.
 func genTwinsScenario(g *gen, p *Plan) *Plan {
 	p.N = pick(g, 4, 4, 4, 4, 7)
-	p.Ruleset = pick(g, "chainedhotstuff", "simplehotstuff") // (fasthotstuff commits nothing on this tree: known finding K1)
+	p.Ruleset = pick(g, "chainedhotstuff", "chainedhotstuff", "simplehotstuff", "simplehotstuff", "fasthotstuff") // (fasthotstuff commits since D24; every view still ends by timeout, K1)
 	p.Crypto = "eddsa"
 	p.Cache = 0
 	p.SyncVerify = true
